@@ -84,6 +84,8 @@ def random_case(rng, tier):
         opts = {'hooks': True}
     else:
         program = programs.gen_process_program(rng, PROGRAM_CFG)
+        if rng.random() < 0.2:
+            program['init_callback'] = True  # a callback scheduled by the constructor (runs while the process is CREATED)
     ticks, notify, _ = common.dry_run(program, opts)
     scenario = rng.choice(['plain', 'pauseplay', 'pauseplay', 'kill'])
     if scenario == 'plain':
@@ -100,6 +102,8 @@ def random_case(rng, tier):
     else:
         schedule = [{'act': 'kill', 'at': rng.randint(0, ticks + 1), 'msg': 'kk'}]
     case = {'program': program, 'schedule': schedule, 'scenario': scenario, 'opts': opts}
+    if rng.random() < 0.2:
+        case['assertion'] = True  # the failure is a failed assert
     if rng.random() < 0.25:
         case['bare'] = True  # the exception is raised without arguments (`raise ValueError`)
     if rng.random() < 0.2:
@@ -143,6 +147,7 @@ def _execute(case, fault):
     # the process, being printable is part of being a usable outcome, and plumpy formats it in several places)
     engine.world.hostile = bool(case.get('hostile')) and fault is not None and str(fault[0]).startswith('listener:')
     engine.world.bare_faults = bool(case.get('bare'))
+    engine.world.assertion_faults = bool(case.get('assertion'))
     started = engine.start()
     drive = None
     if started:
